@@ -59,6 +59,25 @@ type vUniEv struct {
 var errVConn = errors.New("verif: connect failed")
 var errVIO = errors.New("verif: i/o error")
 
+// vTimeoutErr: an i/o error which says it is a timeout (a deadline left on the connection by an earlier call has passed):
+// it is an i/o error like any other - what the call does next depends on ITS context alone
+type vTimeoutErr struct{}
+
+func (vTimeoutErr) Error() string   { return "verif: i/o timeout" }
+func (vTimeoutErr) Timeout() bool   { return true }
+func (vTimeoutErr) Temporary() bool { return true }
+
+var vIOErrN int
+
+// the error of a failing operation: every third one is a timeout
+func vIOErr() error {
+	vIOErrN++
+	if vIOErrN%3 == 0 {
+		return vTimeoutErr{}
+	}
+	return errVIO
+}
+
 type vUniState struct {
 	mu      sync.Mutex
 	script  []vUniEv
@@ -140,7 +159,7 @@ func (c *vUniConn) WriteMessage(mt int, p []byte) error {
 	if e.ctxDone {
 		c.st.cancel()
 	}
-	return errVIO
+	return vIOErr()
 }
 func (c *vUniConn) ReadMessage() (int, []byte, error) {
 	c.st.mu.Lock()
@@ -170,7 +189,7 @@ func (c *vUniConn) ReadMessage() (int, []byte, error) {
 	if e.ctxDone {
 		c.st.cancel()
 	}
-	return 0, nil, errVIO
+	return 0, nil, vIOErr()
 }
 func (c *vUniConn) Close() error { return nil }
 
